@@ -163,7 +163,7 @@ theorem step_flags (l l' : Life) (e : Ev) (hs : step l e = some l') (h : Flags l
     simp only [step] at hs
     split at hs
     · simp only [Option.some.injEq] at hs; subst hs
-      exact (finishClose_flags r l h.hook (fun hc => (h.cl hc).2.2)).1
+      exact (finishClose_flags r l h.hook (fun hc => (h.cl hc).2.2)).1.congr rfl rfl rfl rfl rfl rfl
     · cases hs
   | recvClose =>
     simp only [step] at hs
@@ -269,5 +269,328 @@ theorem step_flags (l l' : Life) (e : Ev) (hs : step l e = some l') (h : Flags l
     · cases hs
     · simp only [Option.some.injEq] at hs; subst hs
       exact resolveOne_flags _ _ _ h
+
+/-! ### values come only from the peer -/
+
+/-- every value a requester was given is a response received from the peer for that very request -/
+def Vals (l : Life) : Prop := ∀ s v, (s, Res.value v) ∈ l.outcomes → (s, v) ∈ l.fromPeer
+
+/-- the step gave nobody a value -/
+def NoNewValues (l l' : Life) : Prop :=
+  l'.fromPeer = l.fromPeer ∧ ∀ s v, (s, Res.value v) ∈ l'.outcomes → (s, Res.value v) ∈ l.outcomes
+
+theorem excRes_not_value (b : Bool) (v : Nat) : excRes b ≠ Res.value v := by
+  cases b <;> simp [excRes]
+
+theorem excRes_isValue (b : Bool) : (excRes b).isValue = false := by
+  cases b <;> rfl
+
+theorem resolveBlocked_nnv (res : Res) (l : Life) (hres : ∀ v, res ≠ Res.value v) :
+    NoNewValues l (resolveBlocked res l) := by
+  refine ⟨rfl, ?_⟩
+  intro s v hm
+  simp only [resolveBlocked, List.mem_append, List.mem_map] at hm
+  rcases hm with hm | ⟨t, _, ht⟩
+  · exact hm
+  · simp only [Prod.mk.injEq] at ht
+    exact absurd ht.2 (hres v)
+
+theorem resolveOne_nnv (t : Nat) (res : Res) (l : Life) (hres : ∀ v, res ≠ Res.value v) :
+    NoNewValues l (resolveOne t res l) := by
+  refine ⟨rfl, ?_⟩
+  intro s v hm
+  simp only [resolveOne, List.mem_append, List.mem_singleton, Prod.mk.injEq] at hm
+  rcases hm with hm | hm
+  · exact hm
+  · exact absurd hm.2.symm (hres v)
+
+theorem NoNewValues.trans {a b c : Life} (h1 : NoNewValues a b) (h2 : NoNewValues b c) : NoNewValues a c :=
+  ⟨h2.1.trans h1.1, fun s v hm => h1.2 s v (h2.2 s v hm)⟩
+
+theorem nnv_of_lists {l l' : Life} (h1 : l'.outcomes = l.outcomes) (h2 : l'.fromPeer = l.fromPeer) :
+    NoNewValues l l' := ⟨h2, fun s v hm => by rw [h1] at hm; exact hm⟩
+
+theorem closeCall_nnv (r : TryRes) (l : Life) : NoNewValues l (closeCall r l).1 :=
+  nnv_of_lists (closeCall_lists r l).1 (closeCall_lists r l).2.1
+
+theorem nnv_close_resolve (r : TryRes) (l0 l1 : Life) (h : NoNewValues l0 l1) :
+    NoNewValues l0 (resolveBlocked (excRes (closeCall r l1).2) (closeCall r l1).1) :=
+  (h.trans (closeCall_nnv r l1)).trans (resolveBlocked_nnv _ _ (excRes_not_value _))
+
+/-- only the receipt of a response gives a requester a value -/
+theorem step_nnv (l l' : Life) (e : Ev) (hs : step l e = some l') (hne : ∀ s v, e ≠ .reply s v) :
+    NoNewValues l l' := by
+  cases e with
+  | closeBegin =>
+    simp only [step] at hs
+    split at hs <;> (simp only [Option.some.injEq] at hs; subst hs; exact nnv_of_lists rfl rfl)
+  | closeEnd r =>
+    simp only [step] at hs
+    split at hs
+    · simp only [Option.some.injEq] at hs; subst hs
+      exact nnv_of_lists (l' := { (finishClose r l).1 with
+          closeRaised := (finishClose r l).1.closeRaised ++ (finishClose r l).2.toList })
+        (finishClose_lists r l).1 (finishClose_lists r l).2.1
+    · cases hs
+  | recvClose =>
+    simp only [step] at hs
+    split at hs
+    · cases hs
+    · simp only [Option.some.injEq] at hs; subst hs
+      exact (nnv_of_lists (cleanup_lists l).1 (cleanup_lists l).2.1).trans
+        (resolveBlocked_nnv _ _ (by intro v; simp))
+  | eofInServe r =>
+    simp only [step, Option.some.injEq] at hs; subst hs
+    exact nnv_close_resolve r l _ (nnv_of_lists rfl rfl)
+  | failSendRequest s =>
+    simp only [step] at hs
+    split at hs
+    · cases hs
+    · simp only [Option.some.injEq] at hs; subst hs
+      refine ⟨rfl, ?_⟩
+      intro t v hm
+      simp only [List.mem_append, List.mem_singleton, Prod.mk.injEq] at hm
+      rcases hm with hm | hm
+      · exact hm
+      · cases hm.2
+  | failSendReply ref r =>
+    simp only [step, Option.some.injEq] at hs; subst hs
+    exact nnv_close_resolve r l _ (nnv_of_lists rfl rfl)
+  | serveAllExit r =>
+    simp only [step, Option.some.injEq] at hs; subst hs
+    exact closeCall_nnv r l
+  | issue s refArg =>
+    simp only [step] at hs
+    split at hs
+    · cases hs
+    · split at hs
+      · simp only [Option.some.injEq] at hs; subst hs
+        refine ⟨rfl, ?_⟩
+        intro t v hm
+        simp only [List.mem_append, List.mem_singleton, Prod.mk.injEq] at hm
+        rcases hm with hm | hm
+        · exact hm
+        · cases hm.2
+      · simp only [Option.some.injEq] at hs; subst hs
+        exact nnv_of_lists rfl rfl
+  | wait s expired r =>
+    simp only [step] at hs
+    split at hs
+    · simp only [Option.some.injEq] at hs; subst hs; exact nnv_of_lists rfl rfl
+    · split at hs
+      · cases hs
+      · split at hs
+        · simp only [Option.some.injEq] at hs; subst hs
+          exact resolveOne_nnv _ _ _ (by intro v; simp)
+        · split at hs
+          · simp only [Option.some.injEq] at hs; subst hs
+            exact (closeCall_nnv r l).trans (resolveOne_nnv _ _ _ (excRes_not_value _))
+          · simp only [Option.some.injEq] at hs; subst hs
+            exact nnv_of_lists rfl rfl
+  | reply s v => exact absurd rfl (hne s v)
+  | timeout =>
+    simp only [step] at hs
+    split at hs
+    · cases hs
+    · simp only [Option.some.injEq] at hs; subst hs
+      exact resolveOne_nnv _ _ _ (by intro v; simp)
+
+theorem step_vals (l l' : Life) (e : Ev) (hs : step l e = some l') (h : Vals l) : Vals l' := by
+  by_cases hr : ∃ s v, e = .reply s v
+  · obtain ⟨s, v, rfl⟩ := hr
+    simp only [step] at hs
+    split at hs
+    · cases hs
+    · simp only [Option.some.injEq] at hs; subst hs
+      intro t w hm
+      simp only [resolveOne, List.mem_append, List.mem_singleton, Prod.mk.injEq] at hm ⊢
+      rcases hm with hm | hm
+      · exact Or.inl (h t w hm)
+      · have : w = v := by injection hm.2
+        exact Or.inr ⟨hm.1, this⟩
+  · have hn := step_nnv l l' e hs (fun s v he => hr ⟨s, v, he⟩)
+    intro t w hm
+    rw [hn.1]
+    exact h t w (hn.2 t w hm)
+
+/-! ### reachable states -/
+
+structure Inv (l : Life) : Prop where
+  flags : Flags l
+  vals : Vals l
+
+theorem inv_init : Inv Life.init := ⟨flags_init, by intro s v hm; simp [Life.init] at hm⟩
+
+theorem step_inv (l l' : Life) (e : Ev) (hs : step l e = some l') (h : Inv l) : Inv l' :=
+  ⟨step_flags l l' e hs h.flags, step_vals l l' e hs h.vals⟩
+
+theorem run_inv (es : List Ev) : ∀ (l l' : Life), run l es = some l' → Inv l → Inv l' := by
+  induction es with
+  | nil => intro l l' h hi; simp only [run, Option.some.injEq] at h; subst h; exact hi
+  | cons e es ih =>
+    intro l l' h hi
+    simp only [run] at h
+    split at h
+    · rename_i l1 hl1
+      exact ih l1 l' h (step_inv l l1 e hl1 hi)
+    · cases h
+
+def Reach (l : Life) : Prop := ∃ es, run Life.init es = some l
+
+theorem Reach.inv {l : Life} (h : Reach l) : Inv l := by
+  obtain ⟨es, hr⟩ := h
+  exact run_inv es _ _ hr inv_init
+
+/-! ### nobody stays blocked -/
+
+/-- every waiter that was blocked has been released with `res`, and nobody is blocked any more -/
+def Released (res : Res) (l l' : Life) : Prop :=
+  l'.blocked = [] ∧ ∀ s, s ∈ l.blocked → (s, res) ∈ l'.outcomes ∧ s ∉ l'.pending
+
+theorem resolveBlocked_released (res : Res) (l : Life) : Released res l (resolveBlocked res l) := by
+  refine ⟨rfl, ?_⟩
+  intro s hs
+  constructor
+  · simp only [resolveBlocked, List.mem_append, List.mem_map]
+    exact Or.inr ⟨s, hs, rfl⟩
+  · simp only [resolveBlocked, List.mem_filter, not_and]
+    intro _
+    simp [hs]
+
+theorem released_of_blocked_eq {res : Res} {l0 l1 l' : Life} (hb : l1.blocked = l0.blocked)
+    (h : Released res l1 l') : Released res l0 l' :=
+  ⟨h.1, fun s hs => h.2 s (by rw [hb]; exact hs)⟩
+
+theorem close_resolve_released (r : TryRes) (l0 l1 : Life) (hb : l1.blocked = l0.blocked) :
+    Released (excRes (closeCall r l1).2) l0 (resolveBlocked (excRes (closeCall r l1).2) (closeCall r l1).1) :=
+  released_of_blocked_eq ((closeCall_lists r l1).2.2.2.1.trans hb) (resolveBlocked_released _ _)
+
+theorem step_chanClosed (l l' : Life) (e : Ev) (hs : step l e = some l') (hi : Flags l) (hc : l.chanClosed = true) :
+    l'.chanClosed = true := by
+  cases e with
+  | closeBegin =>
+    simp only [step] at hs
+    split at hs <;> (simp only [Option.some.injEq] at hs; subst hs; exact hc)
+  | closeEnd r =>
+    simp only [step] at hs
+    split at hs
+    · simp only [Option.some.injEq] at hs; subst hs
+      exact (finishClose_flags r l hi.hook (fun h => (hi.cl h).2.2)).2.2.2.2.2.2
+    · cases hs
+  | recvClose =>
+    simp only [step, hc, Bool.true_or, if_true] at hs
+    cases hs
+  | eofInServe r =>
+    simp only [step, Option.some.injEq] at hs; subst hs
+    have h' : Flags { l with chanClosed := true } := hi.congr rfl rfl (by simp [hc]) rfl rfl rfl
+    exact (closeCall_flags r _ h').2.2.2 rfl
+  | failSendRequest s =>
+    simp only [step] at hs
+    split at hs
+    · cases hs
+    · simp only [Option.some.injEq] at hs; subst hs; rfl
+  | failSendReply ref r =>
+    simp only [step, Option.some.injEq] at hs; subst hs
+    have h' : Flags { l with chanClosed := true, tablesCleared := l.tablesCleared && !boxRegisters l.chanClosed ref } := by
+      refine hi.congr rfl rfl ?_ rfl rfl ?_
+      · simp [hc]
+      · simp [hc, boxRegisters, boxRefusesOnClosedChannel]
+    exact (closeCall_flags r _ h').2.2.2 rfl
+  | serveAllExit r =>
+    simp only [step, Option.some.injEq] at hs; subst hs
+    exact (closeCall_flags r l hi).2.2.2 hc
+  | issue s refArg =>
+    simp only [step] at hs
+    split at hs
+    · cases hs
+    · simp only [Option.some.injEq] at hs; subst hs; exact hc
+  | wait s expired r =>
+    simp only [step] at hs
+    split at hs
+    · simp only [Option.some.injEq] at hs; subst hs; exact hc
+    · split at hs
+      · cases hs
+      · split at hs
+        · simp only [Option.some.injEq] at hs; subst hs; exact hc
+        · simp only [Option.some.injEq] at hs; subst hs
+          exact (closeCall_flags r l hi).2.2.2 hc
+  | reply s v =>
+    simp only [step, hc, Bool.true_or, if_true] at hs
+    cases hs
+  | timeout =>
+    simp only [step] at hs
+    split at hs
+    · cases hs
+    · simp only [Option.some.injEq] at hs; subst hs; exact hc
+
+theorem filter_length_le (p : Nat → Bool) (xs : List Nat) : (xs.filter p).length ≤ xs.length :=
+  List.length_filter_le p xs
+
+/-- once the channel is closed no event makes anybody block -/
+theorem step_no_new_block (l l' : Life) (e : Ev) (hs : step l e = some l') (hc : l.chanClosed = true) :
+    l'.blocked.length ≤ l.blocked.length := by
+  cases e with
+  | closeBegin =>
+    simp only [step] at hs
+    split at hs <;> (simp only [Option.some.injEq] at hs; subst hs; exact Nat.le_refl _)
+  | closeEnd r =>
+    simp only [step] at hs
+    split at hs
+    · simp only [Option.some.injEq] at hs; subst hs
+      show (finishClose r l).1.blocked.length ≤ l.blocked.length
+      rw [(finishClose_lists r l).2.2.2.1]; exact Nat.le_refl _
+    · cases hs
+  | recvClose =>
+    simp only [step, hc, Bool.true_or, if_true] at hs
+    cases hs
+  | eofInServe r =>
+    simp only [step, Option.some.injEq] at hs; subst hs
+    simp [resolveBlocked]
+  | failSendRequest s =>
+    simp only [step] at hs
+    split at hs
+    · cases hs
+    · simp only [Option.some.injEq] at hs; subst hs; exact Nat.le_refl _
+  | failSendReply ref r =>
+    simp only [step, Option.some.injEq] at hs; subst hs
+    simp [resolveBlocked]
+  | serveAllExit r =>
+    simp only [step, Option.some.injEq] at hs; subst hs
+    rw [(closeCall_lists r l).2.2.2.1]; exact Nat.le_refl _
+  | issue s refArg =>
+    simp only [step] at hs
+    split at hs
+    · cases hs
+    · simp only [Option.some.injEq] at hs; subst hs; exact Nat.le_refl _
+  | wait s expired r =>
+    simp only [step] at hs
+    split at hs
+    · simp only [Option.some.injEq] at hs; subst hs; exact Nat.le_refl _
+    · split at hs
+      · cases hs
+      · split at hs
+        · simp only [Option.some.injEq] at hs; subst hs
+          exact filter_length_le _ _
+        · simp only [Option.some.injEq] at hs; subst hs
+          simp only [resolveOne]
+          rw [(closeCall_lists r l).2.2.2.1]
+          exact filter_length_le _ _
+  | reply s v =>
+    simp only [step, hc, Bool.true_or, if_true] at hs
+    cases hs
+  | timeout =>
+    simp only [step] at hs
+    split at hs
+    · cases hs
+    · simp only [Option.some.injEq] at hs; subst hs
+      exact filter_length_le _ _
+
+/-- what "cleanly closed" means -/
+structure Clean (l : Life) : Prop where
+  closed : l.closed = true
+  notInClose : l.inClose = false
+  hookOnce : l.hookRuns = 1
+  tables : l.tablesCleared = true
+  channel : l.chanClosed = true
 
 end Rpyc.Proto.Life
